@@ -6,4 +6,11 @@ import (
 	"google.golang.org/grpc/internal/zzverif/core"
 )
 
-func TestSimWorker(t *testing.T) { core.WorkerMain(t) }
+func TestSimWorker(t *testing.T) {
+	// The scenarios of this world reach many lazily initialised process-global
+	// paths (protobuf message types, fmt/reflect caches, error wrapping) only
+	// in some runs (NACK, fallback, unknown type ...): more throw-away runs than
+	// the default make every reported run start from the same warmed state.
+	core.Warmups = 16
+	core.WorkerMain(t)
+}
